@@ -333,6 +333,30 @@ def povmMatrixSparse {d n : Nat} (B : Basis CRat d n) (vecs : List (Vec CRat n))
   | none => .error .indexError
   | some v => .ok (densitySparse B v)
 
+/-- `Povm._md_index2serial_index` inside `Povm.vec(tuple)`: entry `md_index` of
+`np.arange(num_outcomes).reshape(nums_local_outcomes)`, i.e. the row-major serial index
+(first factor slowest).  `lenMismatch` = the ValueError of `vec` for a tuple of the wrong length,
+`indexError` = numpy's IndexError for an out-of-range component. -/
+def mdSerialAux : List Nat → List Nat → Nat → Except Err Nat
+  | [], [], acc => .ok acc
+  | l :: ls, i :: is, acc => if i < l then mdSerialAux ls is (acc * l + i) else .error .indexError
+  | _, _, _ => .error .lenMismatch
+
+def mdSerial (lens idx : List Nat) : Except Err Nat :=
+  if lens.length ≠ idx.length then .error .lenMismatch else mdSerialAux lens idx 0
+
+/-- `Povm.matrix(tuple)` -/
+def povmMatrixMd {d n : Nat} (B : Basis CRat d n) (vecs : List (Vec CRat n)) (lens idx : List Nat) :
+    Except Err (Mat CRat d d) := do
+  let s ← mdSerial lens idx
+  povmMatrix B vecs s
+
+/-- `Povm.matrix_with_sparsity(tuple)` -/
+def povmMatrixSparseMd {d n : Nat} (B : Basis CRat d n) (vecs : List (Vec CRat n)) (lens idx : List Nat) :
+    Except Err (Mat CRat d d) := do
+  let s ← mdSerial lens idx
+  povmMatrixSparse B vecs s
+
 /-! ## Kraus (gate.py `to_kraus_matrices_from_hs`) — numpy's `eigh` and `sqrt` are parameters -/
 
 /-- one eigenpair as returned by `np.linalg.eigh(choi)` together with `np.sqrt(eigenvalue)` -/
@@ -478,6 +502,21 @@ def handle (args : List String) : Option String :=
       if l.length ≠ m * n then none
       let vs ← (chunks n m l).mapM (toVec? n)
       some (showEM (povmMatrixSparse B vs idx))
+  | ["povmMatrixMd", d, n, basis, m, vecs, lens, idx, sparse] => do
+      let d ← parseNat? d; let n ← parseNat? n; let m ← parseNat? m
+      let lens ← parseList? parseNat? lens; let idx ← parseList? parseNat? idx
+      let B ← toBasis? d n (← parseCList? basis)
+      let l ← parseCList? vecs
+      if l.length ≠ m * n then none
+      let vs ← (chunks n m l).mapM (toVec? n)
+      if sparse = "1" then some (showEM (povmMatrixSparseMd B vs lens idx))
+      else if sparse = "0" then some (showEM (povmMatrixMd B vs lens idx))
+      else none
+  | ["mdSerial", lens, idx] => do
+      let lens ← parseList? parseNat? lens; let idx ← parseList? parseNat? idx
+      match mdSerial lens idx with
+      | .error e => some ("err " ++ e.toString)
+      | .ok s => some s!"ok {s}"
   | ["convertVec", d, n, fromB, toDim, toLen, toB, v] => do
       let d ← parseNat? d; let n ← parseNat? n
       let toDim ← parseNat? toDim; let toLen ← parseNat? toLen
